@@ -5,7 +5,7 @@ use crate::runner::*;
 use crate::vals::*;
 use proptest::prelude::*;
 use refmodel::ir::OpKind;
-use refmodel::tensor::numel;
+use refmodel::tensor::{numel, shapes_with_numel};
 use serde_json::{json, Value};
 
 const OPS: [&str; 8] = ["add", "sub", "mul", "div", "axpy(2)", "axpy(0)", "axpy(1)", "axpy(-0.5)"];
@@ -36,6 +36,7 @@ fn exact_case(opi: usize, a: &[usize], b: &[usize]) -> FwdCase {
         op: op_of(opi),
         leaves: vec![LeafSpec { dims: a.to_vec(), vals: va, tracked: false }, LeafSpec { dims: b.to_vec(), vals: vb, tracked: false }],
         force_exact: Some(true),
+        second_is_view_of_first: None,
     }
 }
 
@@ -92,7 +93,7 @@ fn random_case(r: &PairRecipe, max_elems: usize) -> Option<FwdCase> {
     let va = gen_vals(r.vseed, numel(&a), VKind::Signed);
     let vb = gen_vals(r.vseed ^ 77, numel(&b), VKind::Signed);
     let op = if r.opi < 8 { op_of(r.opi) } else { OpKind::Axpy(((r.vseed >> 20) % 65) as f64 / 8.0 - 4.0) };
-    Some(FwdCase { op, leaves: vec![LeafSpec { dims: a, vals: va, tracked: false }, LeafSpec { dims: b, vals: vb, tracked: false }], force_exact: None })
+    Some(FwdCase { op, leaves: vec![LeafSpec { dims: a, vals: va, tracked: false }, LeafSpec { dims: b, vals: vb, tracked: false }], force_exact: None, second_is_view_of_first: None })
 }
 
 pub fn dispatch(kind: &str, v: &Value) -> Option<Outcome> {
@@ -116,6 +117,73 @@ pub fn campaigns(ctx: &Ctx) -> Stats {
             Some(exact_case(opi, &shapes[(p / ns) as usize], &shapes[(p % ns) as usize]))
         },
     ));
+    // the second operand is a reshaped VIEW of the first (shared storage, other dimensions): same rules apply
+    let mut views: Vec<(Vec<usize>, Vec<usize>)> = vec![];
+    for a in &shapes {
+        for b in shapes_with_numel(numel(a)) {
+            if b.iter().all(|d| *d <= 4) {
+                views.push((a.clone(), b));
+            }
+        }
+    }
+    let nv = views.len() as u64;
+    st.merge(ctx.run_indexed("operands-sharing-storage", nv * NOPS, Some("for every shape a of rank 1..4 / sizes 1..3 and every shape b with the same element count: op(a, a.reshape(b)) for all 8 operations - the operands share one buffer"), |i| {
+        let (a, b) = &views[(i / NOPS) as usize];
+        let mut c = exact_case((i % NOPS) as usize, a, b);
+        c.leaves[0].vals = if matches!(i % NOPS, 2 | 3) { pow2s(numel(a)) } else { iota(numel(a), 2.0, 2.0) };
+        c.leaves[1].vals = c.leaves[0].vals.clone();
+        c.second_is_view_of_first = Some(b.clone());
+        Some(c)
+    }));
+    // value patterns and huge / tiny magnitudes (value-dependent shortcuts), and last dimensions around block lengths
+    st.merge(ctx.run_indexed("value-patterns", NOPS * (N_PATTERNS * N_PATTERNS) as u64 * 2, None, |i| {
+        let opi = (i % NOPS) as usize;
+        let j = i / NOPS;
+        let (pa, pb) = ((j % N_PATTERNS as u64) as usize, ((j / N_PATTERNS as u64) % N_PATTERNS as u64) as usize);
+        let (a, b): (Vec<usize>, Vec<usize>) = if j / (N_PATTERNS * N_PATTERNS) as u64 == 0 { (vec![2, 3], vec![2, 3]) } else { (vec![2, 1, 3], vec![4, 1]) };
+        let vb = pattern_vals(pb, numel(&b), j + 1);
+        if opi == 3 && vb.iter().any(|v| *v == 0.0) {
+            return None;
+        }
+        Some(FwdCase { op: op_of(opi), leaves: vec![LeafSpec { dims: a.clone(), vals: pattern_vals(pa, numel(&a), j), tracked: false }, LeafSpec { dims: b, vals: vb, tracked: false }], force_exact: None, second_is_view_of_first: None })
+    }));
+    st.merge(ctx.run_indexed("extreme-magnitudes", 4 * 4, None, |i| {
+        // add/sub of huge values that do not overflow, mul/div of huge by tiny
+        let big = 2f64.powi(if crate::exec::IS_F32 { 100 } else { 1000 });
+        let small = 1.0 / big;
+        let v = i / 4;
+        let (va, vb): (Vec<f64>, Vec<f64>) = match (i % 4, v % 2) {
+            // sums of huge values that stay finite; differences of tiny ones
+            (0 | 1, 0) => (vec![big, -big, big / 4.0, 0.0], vec![big / 2.0, -big / 2.0]),
+            (0 | 1, _) => (vec![small, -small, small * 3.0, 0.0], vec![small, small * 5.0]),
+            // products / quotients of huge and tiny values that stay finite
+            (2, 0) => (vec![big, -big, small, 3.0], vec![small, small * 4.0]),
+            (2, _) => (vec![small, big, -small, big / 8.0], vec![big, 2.0]),
+            (_, 0) => (vec![big, -big, small, 3.0], vec![2.0, big]),
+            (_, _) => (vec![small, big / 4.0, -small, 1.0], vec![small, 0.25]),
+        };
+        Some(FwdCase { op: op_of((i % 4) as usize), leaves: vec![LeafSpec { dims: vec![2, 2], vals: va, tracked: false }, LeafSpec { dims: vec![2], vals: vb[..2].to_vec(), tracked: false }], force_exact: None, second_is_view_of_first: None })
+    }));
+    {
+        let nb = BOUNDARY_SIZES.len() as u64;
+        st.merge(ctx.run_indexed("boundary-sizes", nb * NOPS * 4, None, |i| {
+            let n = BOUNDARY_SIZES[(i % nb) as usize];
+            let opi = ((i / nb) % NOPS) as usize;
+            let (a, b) = match i / nb / NOPS {
+                0 => (vec![n], vec![1]),
+                1 => (vec![2, n], vec![2, 1]),
+                2 => (vec![1], vec![3, n]),
+                _ => (vec![n, 2], vec![n, 1]),
+            };
+            let mut c = exact_case(opi, &a, &b);
+            if matches!(opi, 2 | 3) {
+                // keep products exact for long operands: small odd numbers against a few powers of two
+                c.leaves[0].vals = (0..numel(&a)).map(|k| (2 * (k % 50) + 1) as f64).collect();
+                c.leaves[1].vals = (0..numel(&b)).map(|k| 2f64.powi((k % 9) as i32 - 4)).collect();
+            }
+            Some(c)
+        }));
+    }
     let (max_rank, max_size, total, max_elems) = ctx.tier.pick((5usize, 8usize, 40000u64, 600usize), (5, 11, 400000, 2048));
     let strat = move || {
         (
